@@ -28,7 +28,9 @@
       `tokparam_badChar_complete` ⇐): an error offset always points at a byte of the reject set of the state reached,
       after a text that is the beginning of a parameter; inside quotes it points at the offending byte itself (for
       backslash + CR / LF: at the CR / LF). `tokparam_badChar_prefix_extends` : that text `[o, p)` really is a proper
-      prefix of a parameter of the grammar — `b[0:p]` followed by at most five explicit bytes holds a `PSParam` at `o`.
+      prefix of a parameter of the grammar — `b[0:p]` followed by at most five explicit bytes holds a `PSParam` at `o`;
+      `tokparam_badChar_local` : every buffer with the same bytes up to and including `p` is rejected at `p` — the byte at
+      `p` is the first one that cannot continue any parameter.
       `pv_skipQuoted` / `PVSq` : every outcome of SkipQuoted (offset and verdict) with the text before it;
       `pv_skipLWS_ne_noCR`, `pv_skipLWS_more` : skipLWS never reports NoCR; where it asks for more bytes.
   (2) `tokparam_trichotomy` : accepted (then `PSParam`, which fixes offset, verdict, object) / MoreBytes (then `PVMore`) /
@@ -51,7 +53,9 @@
   NOT proved here: the object returned with BadChar / MoreBytes (only offset and verdict are characterised; for
   MoreBytes the resumption theorems of C02 say what the object is good for); calls on objects that are not new; an
   equivalence for MoreBytes (only: MoreBytes ⇒ `PVMore` ⇒ continuation exists); the continuation theorem with the
-  end-of-input option.
+  end-of-input option; the continuations are parameters of `PSParam` (what ParseTokenParam accepts: `GParam` widened by
+  the four shapes documented in `ParamSound`), not always of the narrower `GParam` — e.g. after `name =` the
+  continuation CR LF x gives `name = <end of header>`.
   Behaviour worth knowing (no violation of the property was found; each point is pinned by a theorem / test above):
   * after `name LWS` and after a complete value, without `POptTokSpTermF`, the first byte of a second token is rejected
     although it is an allowed byte (`PVRej … fEq / fSep`): it is the first byte that cannot continue the parameter;
@@ -267,7 +271,7 @@ theorem pv_sq (b : Buf) {n : Nat} {e : Err} {u : Unit} :
               rw [runLoop_cont sqMachine hb (by exact sqStep_plain hq), if_pos (by omega)] at hr
               exact (ih (b.size - (i + 1)) (by omega) (i + 1) rfl hr).cons_plain hb hq
 
-/-- **every outcome of `SkipQuoted`**: `OK` after the closing quote of a well-formed body; `BadChar` AT a byte that may
+/-- [EXPORT C17] **every outcome of `SkipQuoted`**: `OK` after the closing quote of a well-formed body; `BadChar` AT a byte that may
     not stand unescaped (CR, LF, DEL, control bytes) or at a CR / LF that follows a backslash; `MoreBytes` at the end
     of the buffer or at a backslash that is the last byte — always after plain bytes and complete escape pairs -/
 theorem pv_skipQuoted (b : Buf) (i : Nat) : PVSq b i (skipQuoted b i).1 (skipQuoted b i).2 := by
@@ -843,7 +847,7 @@ theorem pv_run (flags offs : Nat) (b : Buf) (o i : Nat) (p : PTokParam) (hP : PV
         exact PVQ.more (PVMore.lws p.state i hP hq (Lws.nil i) (EndTail.none i hb))
   · exact hP
 
-/-- (1) **the complete list of verdicts of ParseTokenParam on a new object, every buffer, offset and option word**:
+/-- [EXPORT C17] (1) **the complete list of verdicts of ParseTokenParam on a new object, every buffer, offset and option word**:
     `OK`, `EOH`, `MoreValues`, `MoreBytes`, `BadChar` and nothing else; `MoreBytes` comes with `PVMore` and `BadChar`
     with `PVBad` at the returned offset -/
 theorem tokparam_verdicts_desc (b : Buf) (o flags : Nat) :
@@ -851,7 +855,7 @@ theorem tokparam_verdicts_desc (b : Buf) (o flags : Nat) :
   rw [parseTokenParam_run flags b o {} (by decide)]
   exact pv_run flags o b o o {} (PVAt.init o o (Pad.nil o) (Lws.nil o))
 
-/-- (1) the verdict list alone -/
+/-- [EXPORT C17] (1) the verdict list alone -/
 theorem tokparam_verdicts (b : Buf) (o flags : Nat) :
     (parseTokenParam b o {} flags).2.1 = .ok ∨ (parseTokenParam b o {} flags).2.1 = .eoh ∨
     (parseTokenParam b o {} flags).2.1 = .moreValues ∨ (parseTokenParam b o {} flags).2.1 = .moreBytes ∨
@@ -863,7 +867,7 @@ theorem tokparam_verdicts (b : Buf) (o flags : Nat) :
   · exact Or.inr (Or.inr (Or.inr (Or.inl h.1)))
   · exact Or.inr (Or.inr (Or.inr (Or.inr h.1)))
 
-/-- (1) **a rejection points at a rejectable byte**: `BadChar` at `p` ⇒ the text `[o, p)` is the beginning of a
+/-- [EXPORT C17] (1) **a rejection points at a rejectable byte**: `BadChar` at `p` ⇒ the text `[o, p)` is the beginning of a
     parameter and the byte at `p` is one of those rejected in the state reached (`PVBad`) -/
 theorem tokparam_badChar_sound {b : Buf} {o flags p : Nat} {p' : PTokParam}
     (h : parseTokenParam b o {} flags = (p, .badChar, p')) : PVBad b flags o p := by
@@ -876,7 +880,7 @@ theorem tokparam_badChar_sound {b : Buf} {o flags p : Nat} {p' : PTokParam}
   · cases h.1
   · exact h.2
 
-/-- (2) `MoreBytes` at `r` ⇒ the text `[o, r)` is the beginning of a parameter and the rest of the buffer is unfinished
+/-- [EXPORT C17] (2) `MoreBytes` at `r` ⇒ the text `[o, r)` is the beginning of a parameter and the rest of the buffer is unfinished
     white space or an open quoted string (`PVMore`) -/
 theorem tokparam_moreBytes_sound {b : Buf} {o flags r : Nat} {p' : PTokParam}
     (h : parseTokenParam b o {} flags = (r, .moreBytes, p')) : PVMore b flags o r := by
@@ -1170,7 +1174,7 @@ theorem PVQPre.first {b : Buf} {i e : Nat} {c : UInt8} (h : PVQPre b i e) (he : 
   | plain i' e' c0 h0 _ _ => exact ⟨c0, h0⟩
   | esc i' e' c1 h0 _ _ _ => exact ⟨92, h0⟩
 
-/-- (1) **completeness of the description**: every text of the shape `PVBad … p` is rejected with `BadChar` at `p` -/
+/-- [EXPORT C17] (1) **completeness of the description**: every text of the shape `PVBad … p` is rejected with `BadChar` at `p` -/
 theorem tokparam_badChar_complete {b : Buf} {o flags p : Nat} (h : PVBad b flags o p) :
     (parseTokenParam b o {} flags).1 = p ∧ (parseTokenParam b o {} flags).2.1 = .badChar := by
   rw [parseTokenParam_run flags b o {} (by decide)]
@@ -1202,7 +1206,7 @@ theorem tokparam_badChar_complete {b : Buf} {o flags p : Nat} (h : PVBad b flags
     rw [hr, runLoop_done (tpMachine flags o) hc1 hstep]
     exact ⟨rfl, rfl⟩
 
-/-- (1) **`BadChar` at `p`, exactly**: for every buffer, offset and option word, ParseTokenParam on a new object returns
+/-- [EXPORT C17] (1) **`BadChar` at `p`, exactly**: for every buffer, offset and option word, ParseTokenParam on a new object returns
     `BadChar` with offset `p` IFF the text `[o, p)` is the beginning of a parameter (`PVAt` / an open quoted string) and
     the byte at `p` belongs to the explicit reject set of the state reached (`PVRej`, `PVQBad`, CR / LF after a
     backslash): the error offset always points at the first byte that cannot continue -/
@@ -1222,7 +1226,7 @@ theorem tokparam_badChar_iff (b : Buf) (o flags p : Nat) :
 theorem PSAcc.pv_excl {e : Err} (h : PSAcc e) : e ≠ .moreBytes ∧ e ≠ .badChar := by
   rcases h with h | h | h <;> (subst h; exact ⟨by decide, by decide⟩)
 
-/-- (2) **trichotomy**: for every buffer within the 65,535-byte limit, every offset and every option word, a call on a new
+/-- [EXPORT C17] (2) **trichotomy**: for every buffer within the 65,535-byte limit, every offset and every option word, a call on a new
     object ends in exactly one of three ways (they are told apart by the verdict):
     * accepted — `OK` / `MoreValues` / `EOH`, and then the text is a parameter of the grammar `PSParam` of
       `ParamSound`, which fixes offset, verdict and the whole object;
@@ -1247,7 +1251,7 @@ theorem tokparam_trichotomy (b : Buf) (o flags : Nat) (hfit : b.size ≤ 65535) 
   · exact Or.inr (Or.inl h)
   · exact Or.inr (Or.inr h)
 
-/-- (2) without the end-of-input option, `MoreBytes` means that **no byte so far is rejectable and nothing is complete**:
+/-- [EXPORT C17] (2) without the end-of-input option, `MoreBytes` means that **no byte so far is rejectable and nothing is complete**:
     every shorter buffer (every prefix of `b`) also gives `MoreBytes` -/
 theorem tokparam_moreBytes_prefixes {b1 s : Buf} {o flags : Nat} (hf : hasFlag flags POptInputEndF = false)
     (h : (parseTokenParam (b1 ++ s) o {} flags).2.1 = .moreBytes) :
@@ -1416,7 +1420,7 @@ def pvParamsAfter (b : Buf) (l : URIParamsLst) (tps : List PTokParam) (e : Err) 
 def pvHdrsAfter (l : URIHdrsLst) (tps : List PTokParam) (e : Err) (tp : PTokParam) : URIHdrsLst :=
   if e = .moreBytes then (tps.foldl URIHdrsLst.push l).setCur tp else tps.foldl URIHdrsLst.push l
 
-/-- (3) **the loop of ParseAllURIParams stops with a verdict other than OK / MoreValues / EOH exactly when one of the
+/-- [EXPORT C17] (3) **the loop of ParseAllURIParams stops with a verdict other than OK / MoreValues / EOH exactly when one of the
     items does**: the items before it are parameters of the grammar reported with `MoreValues`; offset and verdict are
     those of that item; the items before it — and only they — are counted and pushed with the type of their names -/
 theorem uriParamsLoop_stop_iff {b : Buf} {flags o o' n vNo : Nat} {e : Err} {r : URIParamsLst} (hfit : b.size ≤ 65535)
@@ -1453,6 +1457,7 @@ theorem uriParamsLoop_stop_iff {b : Buf} {flags o o' n vNo : Nat} {e : Err} {r :
       pv_uriParamsLoop_stop b o1 _ flags _ o' e tp (hl.pv_foldl _) hp hna, hn, hr]
     rfl
 
+/-- [EXPORT C17] (3) the same for the loop of ParseAllURIHdrs -/
 theorem uriHdrsLoop_stop_iff {b : Buf} {flags o o' n vNo : Nat} {e : Err} {r : URIHdrsLst} (hfit : b.size ≤ 65535)
     (l : URIHdrsLst) (hl : l.Fresh) (hna : ¬ PSAcc e) :
     uriHdrsLoop b o l flags vNo = (o', n, e, r) ↔
@@ -1486,7 +1491,7 @@ theorem uriHdrsLoop_stop_iff {b : Buf} {flags o o' n vNo : Nat} {e : Err} {r : U
       pv_uriHdrsLoop_stop b o1 _ flags _ o' e tp (hl.pv_foldl _) hp hna, hn, hr]
     rfl
 
-/-- (3) **ParseAllURIParams returns `BadChar` iff one of the items is rejected**: the items before it are parameters of
+/-- [EXPORT C17] (3) **ParseAllURIParams returns `BadChar` iff one of the items is rejected**: the items before it are parameters of
     the grammar (separator ';' added by the wrapper), the error offset is that of the rejected item (`PVBad`: it points
     at the first byte that cannot continue), N counts exactly the items before it, and the list object is the one an
     accepted list of those items leaves (each pushed with the type of its name; N, Types, slots as in `uri_param_list`) -/
@@ -1510,7 +1515,7 @@ theorem parseAllURIParams_badChar_iff {b : Buf} {flags o o' n : Nat} {r : URIPar
     refine ⟨tps, o1, tp2, H, hp, by omega, ?_⟩
     rw [hr]; unfold pvParamsAfter; rw [if_neg (by decide)]
 
-/-- (3) the same for ParseAllURIHdrs (separator '&') -/
+/-- [EXPORT C17] (3) the same for ParseAllURIHdrs (separator '&') -/
 theorem parseAllURIHdrs_badChar_iff {b : Buf} {flags o o' n : Nat} {r : URIHdrsLst} (hfit : b.size ≤ 65535)
     (l : URIHdrsLst) (hl : l.Fresh) :
     parseAllURIHdrs b o l flags = (o', n, .badChar, r) ↔
@@ -1532,7 +1537,7 @@ theorem parseAllURIHdrs_badChar_iff {b : Buf} {flags o o' n : Nat} {r : URIHdrsL
     refine ⟨tps, o1, tp2, H, hp, by omega, ?_⟩
     rw [hr]; unfold pvHdrsAfter; rw [if_neg (by decide)]
 
-/-- (3) **the complete list of verdicts of the wrappers** on a list object in its reset state: `OK`, `EOH`, `MoreBytes`,
+/-- [EXPORT C17] (3) **the complete list of verdicts of the wrappers** on a list object in its reset state: `OK`, `EOH`, `MoreBytes`,
     `BadChar`; and the verdict and the offset are those of the first item that is not reported with `MoreValues` -/
 theorem uriParamsLoop_outcome {b : Buf} {flags : Nat} (hfit : b.size ≤ 65535) (o : Nat) (l : URIParamsLst)
     (hl : l.Fresh) (vNo : Nat) :
@@ -1565,6 +1570,7 @@ theorem uriParamsLoop_outcome {b : Buf} {flags : Nat} (hfit : b.size ≤ 65535) 
       · exact ha (Or.inr (Or.inr h))
     exact ⟨rfl, rfl, by simp only [if_neg this, Nat.add_zero]⟩
 
+/-- [EXPORT C17] (3) the same for the loop of ParseAllURIHdrs -/
 theorem uriHdrsLoop_outcome {b : Buf} {flags : Nat} (hfit : b.size ≤ 65535) (o : Nat) (l : URIHdrsLst)
     (hl : l.Fresh) (vNo : Nat) :
     ∃ tps o1, PVItems b flags o tps o1 ∧ (parseTokenParam b o1 {} flags).2.1 ≠ .moreValues ∧
@@ -1595,6 +1601,7 @@ theorem uriHdrsLoop_outcome {b : Buf} {flags : Nat} (hfit : b.size ≤ 65535) (o
       · exact ha (Or.inr (Or.inr h))
     exact ⟨rfl, rfl, by simp only [if_neg this, Nat.add_zero]⟩
 
+/-- [EXPORT C17] (3) ParseAllURIParams on a list object in its reset state returns `OK`, `EOH`, `MoreBytes` or `BadChar`, nothing else -/
 theorem parseAllURIParams_verdicts {b : Buf} (hfit : b.size ≤ 65535) (o : Nat) (l : URIParamsLst) (hl : l.Fresh)
     (flags : Nat) :
     (parseAllURIParams b o l flags).2.2.1 = .ok ∨ (parseAllURIParams b o l flags).2.2.1 = .eoh ∨
@@ -1609,6 +1616,7 @@ theorem parseAllURIParams_verdicts {b : Buf} (hfit : b.size ≤ 65535) (o : Nat)
   · exact Or.inr (Or.inr (Or.inl h))
   · exact Or.inr (Or.inr (Or.inr h))
 
+/-- [EXPORT C17] (3) ParseAllURIHdrs on a list object in its reset state returns `OK`, `EOH`, `MoreBytes` or `BadChar`, nothing else -/
 theorem parseAllURIHdrs_verdicts {b : Buf} (hfit : b.size ≤ 65535) (o : Nat) (l : URIHdrsLst) (hl : l.Fresh)
     (flags : Nat) :
     (parseAllURIHdrs b o l flags).2.2.1 = .ok ∨ (parseAllURIHdrs b o l flags).2.2.1 = .eoh ∨
@@ -1626,7 +1634,7 @@ theorem parseAllURIHdrs_verdicts {b : Buf} (hfit : b.size ≤ 65535) (o : Nat) (
 
 /-! ### (4) a rejection is final: appended bytes, chunk schedules -/
 
-/-- (4) a rejected text stays rejected, at the same byte, whatever is appended (no end-of-input option: that option is a
+/-- [EXPORT C17] (4) a rejected text stays rejected, at the same byte, whatever is appended (no end-of-input option: that option is a
     statement about where the input ends) — composition with C03 (`stable_tokparam`) -/
 theorem tokparam_badChar_append {b : Buf} {o flags p : Nat} (hf : hasFlag flags POptInputEndF = false)
     (h : PVBad b flags o p) (s : Buf) :
@@ -1641,7 +1649,7 @@ theorem tokparam_badChar_append {b : Buf} {o flags p : Nat} (hf : hasFlag flags 
   rw [this]
   exact ⟨rfl, rfl, tokparam_badChar_sound this⟩
 
-/-- (4) **a rejection under every chunk schedule** — composition with C02 (`schedule_tokparam`): the complete buffer `B`
+/-- [EXPORT C17] (4) **a rejection under every chunk schedule** — composition with C02 (`schedule_tokparam`): the complete buffer `B`
     (the last of the growing prefixes) holds a text rejected at `p`; the chain of resumed calls, however the input was
     cut, returns `BadChar` at `p` with the very object of the one-shot call -/
 theorem tokparam_badChar_any_schedule (flags : Nat) (hf : hasFlag flags POptInputEndF = false) (o p : Nat)
@@ -1655,7 +1663,7 @@ theorem tokparam_badChar_any_schedule (flags : Nat) (hf : hasFlag flags POptInpu
   subst h1 h2
   exact tokparam_any_schedule flags hf o {} bs hne hg hr
 
-/-- the same for every verdict of ParseAllURIParams: what ONE call on the complete buffer returns — offset, verdict,
+/-- [EXPORT C17] the same for every verdict of ParseAllURIParams: what ONE call on the complete buffer returns — offset, verdict,
     number of values, list object — is what the chain of resumed calls returns (the numbers of values of the calls
     added up), under every chunk schedule -/
 theorem uriparams_any_schedule (flags o : Nat) (bs : List Buf) (hne : bs ≠ []) (hg : Growing bs)
@@ -1676,6 +1684,7 @@ theorem uriparams_any_schedule (flags o : Nat) (bs : List Buf) (hne : bs ≠ [])
   unfold uriParamsParser
   simp only [hone, Nat.zero_add]
 
+/-- [EXPORT C17] the same for every verdict of ParseAllURIHdrs -/
 theorem urihdrs_any_schedule (flags o : Nat) (bs : List Buf) (hne : bs ≠ []) (hg : Growing bs)
     (hf : hasFlag flags POptInputEndF = false) (ho : ∀ b ∈ bs.head?, o ≤ b.size) (l : URIHdrsLst) (hl : l.Fresh)
     {o' n : Nat} {e : Err} {r : URIHdrsLst}
@@ -1694,7 +1703,7 @@ theorem urihdrs_any_schedule (flags o : Nat) (bs : List Buf) (hne : bs ≠ []) (
   unfold uriHdrsParser
   simp only [hone, Nat.zero_add]
 
-/-- (4) **a rejected list under every chunk schedule and with appended bytes**: the complete buffer holds `tps` items of
+/-- [EXPORT C17] (4) **a rejected list under every chunk schedule and with appended bytes**: the complete buffer holds `tps` items of
     the grammar followed by an item rejected at `o'`; however the input is cut, the chain of resumed ParseAllURIParams
     calls returns `BadChar` at `o'`, the values counted over all calls add up to the number of items before the
     rejected one, and the list object holds exactly those items -/
@@ -1708,6 +1717,7 @@ theorem uriparams_badChar_any_schedule (flags o o1 o' : Nat) (tps : List PTokPar
   uriparams_any_schedule flags o bs hne hg hf ho l hl
     ((parseAllURIParams_badChar_iff hfit l hl).2 ⟨tps, o1, H, hbad, rfl, rfl⟩)
 
+/-- [EXPORT C17] (4) the same for ParseAllURIHdrs -/
 theorem urihdrs_badChar_any_schedule (flags o o1 o' : Nat) (tps : List PTokParam) (bs : List Buf) (hne : bs ≠ [])
     (hg : Growing bs) (hf : hasFlag flags POptInputEndF = false) (hfit : (bs.getLast hne).size ≤ 65535)
     (ho : ∀ b ∈ bs.head?, o ≤ b.size) (l : URIHdrsLst) (hl : l.Fresh)
@@ -1717,13 +1727,14 @@ theorem urihdrs_badChar_any_schedule (flags o o1 o' : Nat) (tps : List PTokParam
   urihdrs_any_schedule flags o bs hne hg hf ho l hl
     ((parseAllURIHdrs_badChar_iff hfit l hl).2 ⟨tps, o1, H, hbad, rfl, rfl⟩)
 
-/-- (4) a rejected list stays rejected whatever is appended (C03: `stable_uriparams`) -/
+/-- [EXPORT C17] (4) a rejected list stays rejected whatever is appended (C03: `stable_uriparams`) -/
 theorem uriparams_badChar_append {b : Buf} {flags o o' n : Nat} {r : URIParamsLst}
     (hf : hasFlag flags POptInputEndF = false) (l : URIParamsLst) (hl : l.Fresh) (ho : o ≤ b.size)
     (h : parseAllURIParams b o l flags = (o', n, .badChar, r)) (s : Buf) :
     parseAllURIParams (b ++ s) o l flags = (o', n, .badChar, r) :=
   parseAllURIParams_stable b s o l flags hf (hl.sp_plOK b) ho h (by decide)
 
+/-- [EXPORT C17] (4) the same for ParseAllURIHdrs (C03: `stable_urihdrs`) -/
 theorem urihdrs_badChar_append {b : Buf} {flags o o' n : Nat} {r : URIHdrsLst}
     (hf : hasFlag flags POptInputEndF = false) (l : URIHdrsLst) (hl : l.Fresh) (ho : o ≤ b.size)
     (h : parseAllURIHdrs b o l flags = (o', n, .badChar, r)) (s : Buf) :
@@ -1862,7 +1873,7 @@ theorem PVAt.pv_agree {b b' : Buf} {flags o i : Nat} {st : TPState} (h : PVAt b 
     exact PVAt.fNxt j s t i (hd.pv_agree (ha.mono (by omega))) (hl1.pv_agree (ha.mono (by omega)))
       (ha.get (by omega) hs) (hp.pv_agree (ha.mono (by omega))) (hl2.pv_agree ha)
 
-/-- **a complete item followed by one of the endings of the grammar is a parameter of the grammar** (`PSParam`; the
+/-- [EXPORT C17] **a complete item followed by one of the endings of the grammar is a parameter of the grammar** (`PSParam`; the
     object reported is the one `PSParam` fixes) -/
 theorem PVDone.psParam {b : Buf} {flags o j o' : Nat} {e : Err} {st : TPState} (hd : PVDone b flags o j)
     (hE : Ending b flags j o' e st) : ∃ p', PSParam b flags {} o o' e p' := by
@@ -2014,7 +2025,7 @@ theorem Lws.pv_le_size {b : Buf} {i n : Nat} (h : Lws b i n) (hi : i ≤ b.size)
   | ws i n c hc _ _ ih => have := get?_lt hc; exact ih (by omega)
   | fold i e n c2 _ hc _ _ ih => have := get?_lt hc; exact ih (by omega)
 
-/-- (1) **the text before a rejected byte is a proper prefix of a parameter of the grammar**: if `BadChar` is reported at
+/-- [EXPORT C17] (1) **the text before a rejected byte is a proper prefix of a parameter of the grammar**: if `BadChar` is reported at
     `p`, there is a buffer `B` with the same bytes below `p` that holds a parameter of the grammar `PSParam` at `o`
     (accepted with `EOH`); `B` is `b[0:p]` followed by at most five bytes (`a`, `"`, CR LF `x`) -/
 theorem tokparam_badChar_prefix_extends {b : Buf} {flags o p : Nat} (h : PVBad b flags o p) :
@@ -2065,6 +2076,32 @@ theorem tokparam_badChar_prefix_extends {b : Buf} {flags o p : Nat} (h : PVBad b
     refine ⟨_, _, _, hag2, (pv_complete_quoted (he.pv_agree (hag2.mono (by omega)))
       (hl.pv_agree (hag2.mono (by omega))) (hag2.get (by omega) h34) hpre2 (g 1) ⟨g 2, g 3, g 4⟩).choose_spec⟩
 
+theorem PVBad.pv_agree {b b' : Buf} {flags o p : Nat} (h : PVBad b flags o p) (ha : PVAgree b b' (p + 1)) :
+    PVBad b' flags o p := by
+  cases h with
+  | byte st c hP hb hrej =>
+    exact PVBad.byte st c (hP.pv_agree (ha.mono (by omega))) (ha.get (by omega) hb) hrej
+  | quoted q v0 c he hl h34 hpre hc hbad =>
+    have := hpre.le
+    have := hl.le
+    exact PVBad.quoted q v0 c (he.pv_agree (ha.mono (by omega))) (hl.pv_agree (ha.mono (by omega)))
+      (ha.get (by omega) h34) (hpre.pv_agree (ha.mono (by omega))) (ha.get (by omega) hc) hbad
+  | quotedEsc q v0 m c he hl h34 hpre h92 hpm hc hcr =>
+    subst hpm
+    have := hpre.le
+    have := hl.le
+    exact PVBad.quotedEsc q v0 m c (he.pv_agree (ha.mono (by omega))) (hl.pv_agree (ha.mono (by omega)))
+      (ha.get (by omega) h34) (hpre.pv_agree (ha.mono (by omega))) (ha.get (by omega) h92) rfl
+      (ha.get (by omega) hc) hcr
+
+/-- [EXPORT C17] (1) **the rejected byte cannot continue ANY parameter**: if `BadChar` is reported at `p` on `b`, then EVERY buffer
+    with the same bytes up to and including `p` — whatever follows — is rejected with `BadChar` at `p` (so none of them is
+    accepted or suspended). With `tokparam_badChar_prefix_extends` (the bytes before `p` CAN be continued to a parameter):
+    the error offset is that of the first byte that cannot continue a parameter of the grammar. -/
+theorem tokparam_badChar_local {b b' : Buf} {flags o p : Nat} (h : PVBad b flags o p) (ha : PVAgree b b' (p + 1)) :
+    (parseTokenParam b' o {} flags).1 = p ∧ (parseTokenParam b' o {} flags).2.1 = .badChar :=
+  tokparam_badChar_complete (h.pv_agree ha)
+
 /-- the rest of the buffer of a suspended call — white space cut by the end of the buffer — becomes complete linear
     white space when one space is appended -/
 theorem pv_endTail_space {b : Buf} {q : Nat} (hq : q ≤ b.size) (hend : EndTail b q) :
@@ -2096,7 +2133,7 @@ theorem pv_endTail_space {b : Buf} {q : Nat} (hq : q ≤ b.size) (hend : EndTail
     exact Lws.fold q (q + 2) (q + 2 + 1) 32 (Eol.crlf q (hag.get (by omega) h0) (hag.get (by omega) h1)) g0
       (by decide) (Lws.nil _)
 
-/-- (2) **a suspended text is a proper prefix of a parameter of the grammar** (no end-of-input option, start offset inside
+/-- [EXPORT C17] (2) **a suspended text is a proper prefix of a parameter of the grammar** (no end-of-input option, start offset inside
     the buffer): if the call returns `MoreBytes`, there are bytes `s` (at most six: a space, `a`, `"`, CR LF `x`) such that
     `b ++ s` holds a parameter of the grammar `PSParam` at `o`, accepted with `EOH` -/
 theorem tokparam_moreBytes_extends {b : Buf} {flags o r : Nat} {p' : PTokParam} (ho : o ≤ b.size)
